@@ -96,7 +96,7 @@ def stream_calls(cls):
         return None
     return [one("enc(v1,abc)", lambda c: c.enc(v1, M1)), one("enc(v2,100B)", lambda c: c.enc(v2, M2[:100])), one("dec(v1,70B)", lambda c: c.dec(v1, M2[:70])),
             one("enc(v1,empty)", lambda c: c.enc(v1, b"")), one("enc(bad nonce)->error", lambda c: c.enc(Bits(0, 32), M1)),
-            hist("half-consumed keystream(v2)", half)]
+            hist("half-consumed keystream(v2)", half), hist("core hash(64B) on the keyed object", lambda c: c.hash(B64))]
 
 
 def _ecb_ct(cipher_factory, padcls, B):
@@ -165,6 +165,10 @@ kind("Skein-256", lambda: cskein.Skein(256, 256), [one("h(abc)", lambda h: h(M1)
      expect=hexp(lambda m: RSK.skein(256, 256, m)))
 kind("Skein-mac-long-output", lambda: cskein.Skein(512, 1032, key=b"k1"), [one("h(abc)", lambda h: h(M1)), one("h(200B)", lambda h: h(M2)), one("h(abc,bitlen=17)", lambda h: h(M1, bitlen=17)),
                                                                             hist("update(abc)", lambda h: h.update(M1))], other=lambda: cskein.Skein(512, 1032, key=b"k2"))
+_SKOPT = dict(prs=b"personal", PK=b"public key", kdf=b"kdf id", nonce=b"nonce 1")
+kind("Skein-prs-PK-kdf-nonce", lambda: cskein.Skein(256, 256, **_SKOPT), [one("h(abc)", lambda h: h(M1)), one("h(200B)", lambda h: h(M2)), one("h(abc,bitlen=21)", lambda h: h(M1, bitlen=21)),
+                                                                         one("h(empty)", lambda h: h(M0)), hist("update(abc)", lambda h: h.update(M1))],
+     other=lambda: cskein.Skein(256, 256, prs=b"other"), expect=hexp(lambda m: RSK.skein(256, 256, m, **_SKOPT)))
 kind("Skein-tree", lambda: cskein.Skein(256, 256, Yl=1, Yf=1, Ym=2), [one("h(abc)", lambda h: h(M1)), one("h(200B)", lambda h: h(M2)), one("h(empty)", lambda h: h(M0)),
                                                                        hist("update(200B)", lambda h: h.update(M2))], other=lambda: cskein.Skein(256, 256))
 kind("HMAC-SHA256", lambda: chmac.HMAC(csha.SHA2(256), b"key one"), [one("mac(abc)", lambda m: m(M1)), one("mac(200B)", lambda m: m(M2)), one("mac(empty)", lambda m: m(M0)),
@@ -187,7 +191,11 @@ kind("Nilsimsa", lambda: cnil.Nilsimsa(), [one("n(abc)", lambda n: n(M1)), one("
                                             hist("update(xyz) unfinished", lambda n: n.update(b"xyz")), hist("update(200B);digest()", lambda n: n.update(M2).digest())],
      other=lambda: cnil.Nilsimsa(17))
 kind("AES", lambda: caes.AES(KEY16), cipher_calls(16), other=lambda: caes.AES(KEY24 + bytes(8)), expect=cexp(lambda b: RAES.enc(KEY16, b), lambda b: RAES.dec(KEY16, b), 16))
-kind("DES", lambda: cdes.DES(KEY8), cipher_calls(8), other=lambda: cdes.DES(bytes(8)), expect=cexp(lambda b: RDES.enc(KEY8, b), lambda b: RDES.dec(KEY8, b), 8))
+# keys that differ only in the top bit / only in the parity bit of every byte: any table keyed by a "normalised" key must keep them apart
+KEY8M, KEY8P = bytes(x ^ 0x80 for x in KEY8), bytes(x ^ 0x01 for x in KEY8)
+kind("DES", lambda: cdes.DES(KEY8), cipher_calls(8), other=lambda: cdes.DES(KEY8M), expect=cexp(lambda b: RDES.enc(KEY8, b), lambda b: RDES.dec(KEY8, b), 8))
+kind("DES-msb-twin-key", lambda: cdes.DES(KEY8M), cipher_calls(8), other=lambda: cdes.DES(KEY8), expect=cexp(lambda b: RDES.enc(KEY8M, b), lambda b: RDES.dec(KEY8M, b), 8))
+kind("DES-parity-twin-key", lambda: cdes.DES(KEY8P), cipher_calls(8)[:4], other=lambda: cdes.DES(KEY8M), expect=cexp(lambda b: RDES.enc(KEY8P, b), lambda b: RDES.dec(KEY8P, b), 8))
 kind("TDEA", lambda: cdes.TDEA(KEY24), cipher_calls(8), other=lambda: cdes.TDEA(KEY8), expect=cexp(lambda b: RDES.tdea_enc(KEY24[:8], KEY24[8:16], KEY24[16:], b), lambda b: RDES.tdea_dec(KEY24[:8], KEY24[8:16], KEY24[16:], b), 8))
 kind("Serpent", lambda: cser.Serpent(KEY16), cipher_calls(16), other=lambda: cser.Serpent(KEY24), expect=cexp(lambda b: RSER.enc(KEY16, b), lambda b: RSER.dec(KEY16, b), 16))
 kind("Threefish-256", lambda: ctf.Threefish(B32, B16), cipher_calls(32), other=lambda: ctf.Threefish(B32, IV16), expect=cexp(lambda b: RTF.tf_enc(B32, B16, b), lambda b: RTF.tf_dec(B32, B16, b), 32))
